@@ -99,6 +99,11 @@ def paste_cases():
         for args in itertools.product(PASTE_ARGS, repeat=n):
             if sum(1 for a in args if a) <= 2:           # results stay valid tokens (at most two non-empty operands)
                 yield {"defs": [d], "inv": f"{name}({','.join(args)})"}
+    # character constants whose spelling is a parameter name, a comma, a parenthesis or # are constants, nothing else
+    for defs, inv in ((["#define F(c) (c == 'c')"], "F(98)"), (["#define F(x) 'x'"], "F(1) == 120"), (["#define ID(x) x"], "ID(',') == 44"),
+                      (["#define ADD(a, b) a + b"], "ADD('(', ')')"), (["#define F(c) (c == '#')"], "F(35)"),
+                      (["#define G(a, b) a b"], "G(')', '(')")):
+        yield {"defs": defs, "inv": inv}
     # identifiers that are words of the implementation language are ordinary macro names
     for nm in ("None", "True", "self", "ident", "EXPANSION"):
         yield {"defs": [f"#define {nm} 5", "#define ID(x) x"], "inv": f"{nm} + ID({nm})"}
